@@ -355,7 +355,8 @@ def run_snr(ctx, n_cases):
     rng = ctx.rng
     cases = []
     for _ in range(n_cases):
-        cases.append(dict(T=rng.choice([1, 2, 3, 16, 32, 33, rng.randint(1, 2000)]), m=hx(rnd_pos(rng) + 1), s=hx(rnd_pos(rng) + rng.choice([0.001, 0.5])),
+        scale = rng.choice([1.0, 1.0, 1.0, 1e-9, 1e-12, 1e-26, 1e9])         # "all parameter values": calibrated flux units are tiny numbers, raw counts huge ones
+        cases.append(dict(T=rng.choice([1, 2, 3, 16, 32, 33, rng.randint(1, 2000)]), m=hx((rnd_pos(rng) + 1) * scale), s=hx((rnd_pos(rng) + rng.choice([0.001, 0.5])) * scale),
                           snrs=[hx(rng.choice([1.0, 10.0, 25.0, 1e-3, 1e6, round(rng.uniform(0.1, 1000), 3), -5.0, 0.0])) for _ in range(6)]))
     impl = []
     for part in C.run_impl_parallel("c11_impl", [dict(mode="snr", cases=ch) for ch in C.chunks(cases, C.NCPU)]):
